@@ -94,6 +94,9 @@ func StartHistory(rec *Recorder, reset Ev) *Chain {
 		}
 	}
 	c := NewChain(p, names, bal)
+	if reset.RModSvc {
+		c.RegisterTestModuleService()
+	}
 	for i := range reset.RInit {
 		op := &reset.RInit[i]
 		if !c.Apply(op) || !op.OK {
